@@ -432,7 +432,7 @@ static iwrc _exfile_copy(struct IWFS_EXT *f, off_t off, size_t siz, off_t noff) 
   RCRET(rc);
   EXF *impl = f->impl;
   MMAPSLOT *s = impl->mmslots;
-  if (s && s->mmap && (s->off == 0) && (s->len >= noff + siz)) { // fully mmaped file
+  if (s && s->mmap && (s->off == 0) && (s->len >= noff + siz) && (s->len >= off + siz)) { // fully mmaped file
     rc = _exfile_ensure_size_lw(f, noff + siz);
     RCRET(rc);
     if (impl->dlsnr) {
